@@ -78,6 +78,8 @@ class FlexiblePaxosNode(Entity):
         self._network = network
         self._peers: list[FlexiblePaxosNode] = list(peers) if peers else []
         self._state_machine = state_machine or KVStateMachine()
+        if heartbeat_interval <= 0:
+            raise ValueError(f"heartbeat_interval must be > 0, got {heartbeat_interval}")
         self._heartbeat_interval = heartbeat_interval
 
         total = len(self._peers) + 1
